@@ -21,9 +21,13 @@ def setup(ctx):
     ode = monitors_ode.install_tdvp()
 
 
-def problem(rng, dmin=2, dmax=4, cap=64):
+def problem(rng, dmin=1, dmax=4, cap=64):
     d = int(rng.integers(dmin, dmax + 1))
-    dims = [int(rng.integers(2, 4)) for _ in range(d)]
+    if rng.random() < 0.12:
+        d = 1  # a single site is a tensor train too (the state then trivially has maximal ranks)
+    dims = [int(rng.integers(2, 4)) if rng.random() > 0.12 else int(rng.integers(1, 5)) for _ in range(d)]
+    if all(x == 1 for x in dims):
+        dims[int(rng.integers(0, d))] = 2
     while int(np.prod(dims)) > cap:
         dims[int(np.argmax(dims))] -= 1
     cplx = bool(rng.integers(0, 2))
